@@ -84,3 +84,9 @@ pub fn nums(s: &str) -> Vec<i64> {
     if s.is_empty() { return vec![]; }
     s.split(',').map(|x| x.parse().unwrap()).collect()
 }
+
+/// announce the input about to be tried (one unbuffered stderr line): if the process is then killed by the memory limit or the
+/// time limit, the driver knows which input to replay and report
+pub fn note_current(input: &str) {
+    eprintln!("CUR {}", input);
+}
